@@ -48,7 +48,11 @@ def run(ctx):
         name = op[0]
         def mk(vs):
             items = [cls.from_ticks(v) for v in vs]
-            if DONORS["use"] and name in ("extend", "iadd", "setslice"):
+            if DONORS["use"] == "iter" and name in ("extend", "iadd", "setslice"):
+                # a one-shot iterable: generator, iterator, map, reversed
+                k = DONORS["n"] = DONORS.get("n", 0) + 1
+                return [iter(items), (x for x in items), map(lambda x: x, items), reversed(items[::-1])][k % 4]
+            if DONORS["use"] is True and name in ("extend", "iadd", "setslice"):
                 # the argument is itself an array: it must neither be changed by the call nor share storage with `a` afterwards
                 src = acls(items)
                 DONORS["live"].append((src, list(vs)))
@@ -65,6 +69,8 @@ def run(ctx):
             if name == "append": a.append(cls.from_ticks(op[1])); return None
             if name == "extend": a.extend(mk(op[1])); return None
             if name == "extendself": a.extend(a); return None
+            if name == "setself": a[slice(*op[1:4])] = a; return None
+            if name == "setselfslice": a[slice(*op[1:4])] = a[slice(*op[4:7])]; return None
             if name == "iadd":
                 b = a; b += mk(op[1]); return None
             if name == "pop": return a.pop(op[1]).ticks
@@ -85,6 +91,8 @@ def run(ctx):
             if name == "append": l.append(op[1]); return None
             if name in ("extend", "iadd"): l.extend(op[1]); return None
             if name == "extendself": l.extend(l); return None
+            if name == "setself": l[slice(*op[1:4])] = l; return None
+            if name == "setselfslice": l[slice(*op[1:4])] = l[slice(*op[4:7])]; return None
             if name == "pop": return l.pop(op[1])
             if name == "remove": l.remove(op[1]); return None
             if name == "reverse": l.reverse(); return None
@@ -123,11 +131,18 @@ def run(ctx):
         return " ".join([name] + [str(x) for x in op[1:]])
 
     def run_case(cls, acls, init, ops, array_args=False):
-        a = acls([cls.from_ticks(v) for v in init])
+        first = [cls.from_ticks(v) for v in init]
+        a = acls(first) if array_args != "iter" else acls(iter(first) if len(init) % 2 else (x for x in first))
         l = list(init)
         DONORS["use"], DONORS["live"] = array_args, []
         lines.append(f"new [{','.join(map(str, init))}]"); exp_list.append("ok [" + ",".join(map(str, init)) + "]")
         for op in ops:
+            if op[0] in ("setself", "setselfslice"):
+                # for the model this is an ordinary slice assignment of the values the list holds right now
+                vals_now = list(l) if op[0] == "setself" else l[slice(*op[4:7])]
+                self_line = f"setslice {fmt(op[1])} {fmt(op[2])} {fmt(op[3])} [{','.join(map(str, vals_now))}]"
+            else:
+                self_line = None
             tl = apply(None, a, l, cls, acls, op)
             for src, vals in DONORS["live"]:
                 if ticks(src) != vals:
@@ -135,7 +150,7 @@ def run(ctx):
                                   observed=str(ticks(src))[:200], required=str(vals)[:200])
                     DONORS["live"] = []
                     break
-            lines.append(line_of(op)); exp_list.append(tl)
+            lines.append(self_line or line_of(op)); exp_list.append(tl)
             ctx.case((acls.__name__, tuple(init), str(op)))
             ctx.count("op", op[0])
             ctx.count("outcome", tl.split()[0] if tl.startswith("ok") else tl.split()[1])
@@ -172,7 +187,7 @@ def run(ctx):
         init = [rng.choice(pool) for _ in range(rng.randint(0, 6))]
         ops = []
         for _ in range(rng.randint(1, 12)):
-            k = rng.choice(["get", "set", "del", "getslice", "setslice", "delslice", "insert", "append", "extend", "extendself",
+            k = rng.choice(["get", "set", "del", "getslice", "setslice", "delslice", "insert", "append", "extend", "extendself", "setself", "setselfslice",
                             "iadd", "pop", "remove", "reverse", "clear", "index", "count", "len"])
             i = rng.randint(-8, 8)
             v = rng.choice(pool)
@@ -181,10 +196,14 @@ def run(ctx):
             elif k in ("set", "insert"): ops.append((k, i, v))
             elif k in ("getslice", "delslice"): ops.append((k,) + sl)
             elif k == "setslice": ops.append((k,) + sl + ([rng.choice(pool) for _ in range(rng.randint(0, 5))],))
+            elif k == "setself": ops.append((k,) + (rng.choice(bounds), rng.choice(bounds), rng.choice([None, None, 1, 1, -1, 2])))
+            elif k == "setselfslice": ops.append((k,) + (rng.choice(bounds), rng.choice(bounds), rng.choice([None, 1])) + (rng.choice(bounds), rng.choice(bounds), rng.choice([None, 1, -1])))
             elif k in ("append", "remove", "index", "count"): ops.append((k, v))
             elif k in ("extend", "iadd"): ops.append((k, [rng.choice(pool) for _ in range(rng.randint(0, 3))]))
             else: ops.append((k,))
-        if h % 3 == 0:
+        if h % 3 == 1:
+            run_case(cls, acls, init, ops, array_args="iter")
+        elif h % 3 == 0:
             # start from an empty array and let extend / += / slice assignment take arrays as arguments
             run_case(cls, acls, [] if h % 2 else init, [("extend", [rng.choice(pool) for _ in range(rng.randint(1, 3))])] + ops, array_args=True)
         else:
